@@ -77,9 +77,40 @@ def _tree_hash(files):
     return h.hexdigest()[:20]
 
 
+def pyx_pinned(pkg):
+    """True when the .pyx wrapper of the tree is the one the pre-generated wrapper C was made from."""
+    rel = f"src/hydrodiy/{pkg}/c_hydrodiy_{pkg}.pyx"
+    want = {}
+    for line in (VERIF / "vendor" / "wrappers" / "PYX_SHA256").read_text().splitlines():
+        h, f = line.split()
+        want[f] = h
+    p = REPO / rel
+    return p.exists() and hashlib.sha256(p.read_bytes()).hexdigest() == want.get(rel)
+
+
+def wrapper_c(pkg):
+    """Cython-generated wrapper C of a package: the (git-ignored) file of the tree,
+    else the copy vendored in /verif (generated from the pinned .pyx; Cython is not
+    installed, so it cannot be regenerated) provided the tree's .pyx is unchanged."""
+    p = REPO / "src" / "hydrodiy" / pkg / f"c_hydrodiy_{pkg}.c"
+    if p.exists():
+        return p
+    if not pyx_pinned(pkg):
+        raise BrokenTie(f"{p} is missing and c_hydrodiy_{pkg}.pyx differs from the pinned wrapper: "
+                        "the extension cannot be rebuilt without Cython")
+    import gzip
+    out = VERIF / ".cache" / "wrappers" / f"c_hydrodiy_{pkg}.c"
+    if not out.exists():
+        out.parent.mkdir(parents=True, exist_ok=True)
+        tmp = out.with_suffix(f".{os.getpid()}")
+        tmp.write_bytes(gzip.decompress((VERIF / "vendor" / "wrappers" / f"c_hydrodiy_{pkg}.c.gz").read_bytes()))
+        os.rename(tmp, out)
+    return out
+
+
 def ext_source_files(pkg):
     d = REPO / "src" / "hydrodiy" / pkg
-    files = [d / f"c_hydrodiy_{pkg}.c"] + [d / f"{s}.c" for s in EXT_SOURCES[pkg]]
+    files = [wrapper_c(pkg)] + [d / f"{s}.c" for s in EXT_SOURCES[pkg]]
     files += sorted(d.glob("*.h"))
     return files
 
@@ -106,7 +137,7 @@ def build_ext(sanitize=False):
     for pkg, srcs in EXT_SOURCES.items():
         d = REPO / "src" / "hydrodiy" / pkg
         so = tmp / f"c_hydrodiy_{pkg}.cpython-312-x86_64-linux-gnu.so"
-        cfiles = [str(d / f"c_hydrodiy_{pkg}.c")] + [str(d / f"{s}.c") for s in srcs]
+        cfiles = [str(wrapper_c(pkg))] + [str(d / f"{s}.c") for s in srcs]
         if sanitize:
             cmd = ["clang", "-shared", "-fPIC", "-O1", "-g",
                    "-fsanitize=address,undefined", "-fno-sanitize-recover=undefined",
